@@ -5,7 +5,9 @@ RULE = ("a real Node (virtual clock) with upload_max_parallel_transfers 0..3, up
         "time-out 0/5/30 s, reconsider interval 0/2 s and 3..5 peers (with a live session over a socketpair, with a session key "
         "but no live session, or without a key) receives 5..40 operations: chunk requests for servable and unservable chunks "
         "(30% of them repeat an upload that is still in flight), acknowledgements (of in-flight uploads, duplicates, spurious "
-        "ones), ticks and clock advances (0.1 s .. just below / at / above the time-out). After every operation the frames the "
+        "ones), ticks and clock advances (0.1 s .. just below / at / above the time-out); 'flood' sequences in which one peer asks "
+        "for 3..6 different chunks at once (per-peer limit 0..3, global 0/3/8), so that requests queue behind its limit, and its "
+        "slots are then released by acknowledgements in any order or by several uploads timing out in one pass. After every operation the frames the "
         "node put on the wire are read from the far ends, decrypted and decoded (CHUNK / negative ACK per peer and chunk) and "
         "the two bookkeeping maps are read through the friend class. Oracle (independent of the model, from the frames): the "
         "uploads in flight -- CHUNK sent, not acknowledged since, younger than the time-out -- never exceed the global or "
@@ -34,6 +36,29 @@ def generate(rng, tier):
     # the historical failure: per-peer limit 2, the same (peer, chunk) requested twice in flight, acknowledged twice
     cases.append(mk((3, 2, 30, 2), [1, 1], 3, [(0, 1, 1), (0, 1, 1), (1, 1, 1), (1, 1, 1), (2, 0, 0), (0, 1, 2), (0, 1, 3), (0, 1, 1)], "repeat-in-flight"))
     cases.append(mk((1, 1, 5, 0), [1, 1, 1], 3, [(0, 1, 1), (0, 2, 1), (0, 3, 2), (3, 5000, 0), (2, 0, 0), (1, 2, 1), (1, 3, 2)], "timeout-frees-slot"))
+    # one peer floods: reaches its per-peer limit with more requests queued, then slots are released by acknowledgements or
+    # by several of its uploads timing out in the same pass
+    for _ in range(n // 3):
+        per = rng.choice([1, 1, 2, 3, 0])
+        cfg = (rng.choice([0, 3, 3, 8]), per, rng.choice([5, 30]), rng.choice([0, 2]))
+        np_ = 3
+        kinds = [1, 1, 1]
+        p = rng.randrange(1, 4)
+        chunks = rng.sample(range(1, 7), rng.randrange(3, 7))
+        ops = [(0, p, c) for c in chunks]
+        if rng.random() < 0.3:
+            ops.insert(rng.randrange(len(ops)), (0, rng.choice([q for q in (1, 2, 3) if q != p]), rng.randrange(1, 7)))
+        if rng.random() < 0.5:
+            ops += [(3, cfg[2] * 1000 + rng.choice([0, 1, 500]), 0), (2, 0, 0)]
+            ops += [(0, p, c) for c in rng.sample(range(1, 7), 2)]
+        order = chunks[:]
+        rng.shuffle(order)
+        for c in order[:rng.randrange(1, len(order) + 1)]:
+            ops.append((1, p, c))
+            if rng.random() < 0.3:
+                ops.append((2, 0, 0))
+        ops += [(3, cfg[2] * 1000, 0), (2, 0, 0), (2, 0, 0)]
+        cases.append(mk(cfg, kinds, 6, ops, "flood"))
     for _ in range(n):
         cfg = (rng.choice([0, 1, 2, 3, 3]), rng.choice([0, 1, 2, 2, 3]), rng.choice([0, 5, 30]), rng.choice([0, 2]))
         np_ = rng.choice([3, 4, 5])
